@@ -1061,4 +1061,478 @@ theorem bad_port_built (c : Conn) (wf : WfBase c) (p : Int) (hc : c.port = some 
       simp [h1, this]
     · simp [h1]
 
+/-! ## URIs with a query: extra parameters -/
+
+/-- may occur in a query without starting a fragment / being removed by `urlsplit` -/
+def okQuery (c : Nat) : Bool := !(c == 35 || c == 9 || c == 10 || c == 13)
+
+/-- `?query` suffix -/
+def querySuffix : Option Str → Str
+  | none => []
+  | some q => 63 :: q
+
+theorem urlparse_assembleQ_some (p : Parts) (ok : PartsOk p) (qx : Str) (hq : qx.all okQuery = true) :
+    urlparse (assemble p ++ 63 :: qx) = .ok ⟨p.scheme.map lowerAscii, p.netloc, 47 :: p.tail, qx⟩ := by
+  have hn' := netloc_chars p ok
+  have ht' : ∀ c ∈ p.tail, okTail c = true := List.all_eq_true.mp ok.tail
+  have hs' : ∀ c ∈ 63 :: qx, c ≠ 35 ∧ c ≠ 9 ∧ c ≠ 13 ∧ c ≠ 10 := by
+    intro c hc
+    simp only [List.mem_cons] at hc
+    rcases hc with rfl | hc
+    · decide
+    · have := List.all_eq_true.mp hq c hc
+      simp [okQuery] at this; omega
+  obtain ⟨hO, hC, hB⟩ := netloc_br p ok
+  have hs := ok.scheme
+  match hsc : p.scheme, hs with
+  | x :: xs, hs =>
+    simp only [validScheme, Bool.and_eq_true] at hs
+    obtain ⟨hx, hall⟩ := hs
+    have hall' : ∀ c ∈ x :: xs, isSchemeChar c = true := List.all_eq_true.mp hall
+    have hx32 : 32 < x := by
+      simp only [isAsciiAlpha, Bool.or_eq_true, Bool.and_eq_true, decide_eq_true_eq] at hx; omega
+    have hx128 : x < 128 := (schemeChar_facts x (hall' x (by simp))).2.2.2.2
+    have h58 : 58 ∉ x :: xs := fun hm => (schemeChar_facts 58 (hall' 58 hm)).1 rfl
+    have hu : assemble p ++ (63 :: qx)
+        = (x :: xs) ++ 58 :: ([47, 47] ++ p.netloc ++ 47 :: (p.tail ++ (63 :: qx))) := by
+      simp [assemble, hsc]
+    have hstrip : lstripC0 (assemble p ++ (63 :: qx)) = assemble p ++ (63 :: qx) := by
+      rw [hu]; exact lstripC0_id x _ hx32
+    have htrn : removeTRN (assemble p ++ (63 :: qx)) = assemble p ++ (63 :: qx) := by
+      apply removeTRN_id
+      intro c hc
+      rw [hu] at hc
+      simp only [List.mem_append, List.mem_cons, List.not_mem_nil, or_false] at hc
+      rcases hc with hc | rfl | ((rfl | rfl) | hc) | rfl | hc | hc
+      · have := schemeChar_facts c (hall' c (by simpa using hc)); omega
+      · decide
+      · decide
+      · decide
+      · rcases hn' c hc with h | rfl | rfl
+        · have := okNet_facts c h; omega
+        · decide
+        · decide
+      · decide
+      · have := ht' c hc; simp [okTail] at this; omega
+      · have := hs' c (List.mem_cons.mpr hc); omega
+    unfold urlparse
+    simp only [hstrip, htrn]
+    have hsplit : splitScheme (assemble p ++ (63 :: qx))
+        = ((x :: xs).map lowerAscii, [47, 47] ++ p.netloc ++ 47 :: (p.tail ++ (63 :: qx))) := by
+      unfold splitScheme
+      rw [hu, breakOn_append 58 _ _ h58]
+      simp [hx, hx128, hall]
+    rw [hsplit]
+    have hbp : breakP isNetlocEnd (p.netloc ++ 47 :: (p.tail ++ (63 :: qx)))
+        = (p.netloc, 47 :: (p.tail ++ (63 :: qx))) := by
+      apply breakP_append
+      · intro c hc
+        rcases hn' c hc with h | rfl | rfl
+        · have := okNet_facts c h; simp [isNetlocEnd]; omega
+        · decide
+        · decide
+      · decide
+    have h35 : breakOn 35 (47 :: (p.tail ++ (63 :: qx))) = none := by
+      apply breakOn_none
+      intro hm
+      simp only [List.mem_cons, List.mem_append] at hm
+      rcases hm with hm | hm | hm
+      · simp at hm
+      · have := ht' 35 hm; simp [okTail] at this
+      · exact (hs' 35 (List.mem_cons.mpr hm)).1 rfl
+    have h63t : 63 ∉ 47 :: p.tail := by
+      intro hm
+      simp at hm
+      have := ht' 63 hm; simp [okTail] at this
+    have h59 : 59 ∉ p.tail := by
+      intro hm
+      have := ht' 59 hm; simp [okTail] at this
+    have hdrop : ([47, 47] ++ p.netloc ++ 47 :: (p.tail ++ (63 :: qx))).drop 2
+        = p.netloc ++ 47 :: (p.tail ++ (63 :: qx)) := by simp
+    have hsw : startsWith [47, 47] ([47, 47] ++ p.netloc ++ 47 :: (p.tail ++ (63 :: qx))) = true := by
+      simp [startsWith]
+    have h63 : breakOn 63 (47 :: (p.tail ++ (63 :: qx))) = some (47 :: p.tail, qx) := by
+      have : 47 :: (p.tail ++ (63 :: qx)) = (47 :: p.tail) ++ 63 :: qx := by simp
+      rw [this, breakOn_append 63 _ _ h63t]
+    simp only [hsw, if_true, hdrop, hbp, hO, hC, bne_self_eq_false, Bool.false_eq_true, if_false, h35, h63]
+    cases hbr : p.br with
+    | false => simp [h59]
+    | true => simp [hB hbr, ok.brok hbr, h59]
+
+theorem urlparse_assembleQ (p : Parts) (ok : PartsOk p) (q : Option Str)
+    (hq : ∀ x, q = some x → x.all okQuery = true) :
+    urlparse (assemble p ++ querySuffix q) = .ok ⟨p.scheme.map lowerAscii, p.netloc, 47 :: p.tail, q.getD []⟩ := by
+  cases q with
+  | none => simpa [querySuffix] using urlparse_assemble p ok
+  | some x => simpa [querySuffix] using urlparse_assembleQ_some p ok x (hq x rfl)
+
+theorem parseURI_assembleQ (p : Parts) (ok : PartsOk p) (sep : PartsSep p) (q : Option Str)
+    (hq : ∀ x, q = some x → x.all okQuery = true) :
+    parseURI (assemble p ++ querySuffix q) =
+      match portOfText p.port with
+      | none => .valueError
+      | some port =>
+        .ok { user := (nonEmpty? p.user).map unquote
+              password := (nonEmpty? p.password).map unquote
+              host := hostnameOf p.host
+              port := match port with
+                | some 0 => none
+                | x => x
+              path := unquote (47 :: p.tail)
+              args := dictOf (parseQsl (q.getD [])) } := by
+  unfold parseURI
+  rw [urlparse_assembleQ p ok q hq]
+  simp only [userinfo_netloc p sep, portOf, hostname, hostinfo_netloc p ok sep]
+  generalize portOfText p.port = r
+  cases r <;> rfl
+
+
+
+theorem splitOn_ne_nil (sep : Nat) (l : Str) : splitOn sep l ≠ [] := by
+  induction l with
+  | nil => simp [splitOn]
+  | cons c cs ih =>
+    rw [splitOn]
+    split
+    · simp
+    · split <;> simp
+
+theorem splitOn_no (sep : Nat) (a : Str) (h : sep ∉ a) : splitOn sep a = [a] := by
+  induction a with
+  | nil => simp [splitOn]
+  | cons c cs ih =>
+    have hc : c ≠ sep := fun e => h (by simp [e])
+    rw [splitOn, ih (fun e => h (by simp [e]))]
+    simp [hc]
+
+theorem splitOn_append (sep : Nat) (a rest : Str) (h : sep ∉ a) :
+    splitOn sep (a ++ sep :: rest) = a :: splitOn sep rest := by
+  induction a with
+  | nil =>
+    simp only [List.nil_append]
+    rw [splitOn]
+    match hs : splitOn sep rest with
+    | [] => exact absurd hs (splitOn_ne_nil sep rest)
+    | x :: t => simp
+  | cons c cs ih =>
+    have hc : c ≠ sep := fun e => h (by simp [e])
+    simp only [List.cons_append]
+    rw [splitOn, ih (fun e => h (by simp [e]))]
+    simp [hc]
+
+/-- one `name=value` piece of `parse_qsl` -/
+def qslItem (nv : Str) : Option (Str × Str) :=
+  match breakOn 61 nv with
+  | some (n, v) => if v.isEmpty then none else some (unquote (plusToSpace n), unquote (plusToSpace v))
+  | none => none
+
+theorem parseQsl_eq (q : Str) : parseQsl q = if q.isEmpty then [] else (splitOn 38 q).filterMap qslItem := by
+  unfold parseQsl qslItem; rfl
+
+def decPair (kv : Str × Str) : Str × Str := (unquote (plusToSpace kv.1), unquote (plusToSpace kv.2))
+
+/-- an encoded pair that `parse_qsl` splits where `urlencode` joined -/
+def pairOk (kv : Str × Str) : Prop := 38 ∉ kv.1 ∧ 61 ∉ kv.1 ∧ 38 ∉ kv.2 ∧ kv.2 ≠ []
+
+theorem qslItem_pair (k v : Str) (h : pairOk (k, v)) : qslItem (k ++ 61 :: v) = some (decPair (k, v)) := by
+  obtain ⟨_, h61, _, hne⟩ := h
+  unfold qslItem
+  rw [breakOn_append 61 k v h61]
+  cases v with
+  | nil => exact absurd rfl hne
+  | cons _ _ => simp [decPair]
+
+theorem pair_no_amp (k v : Str) (h : pairOk (k, v)) : 38 ∉ k ++ 61 :: v := by
+  obtain ⟨h1, _, h2, _⟩ := h
+  simp [h1, h2]
+
+theorem items_join (qps : List (Str × Str)) (hne : qps ≠ []) (hok : ∀ kv ∈ qps, pairOk kv) :
+    (splitOn 38 (joinParams qps)).filterMap qslItem = qps.map decPair := by
+  induction qps with
+  | nil => exact absurd rfl hne
+  | cons kv rest ih =>
+    obtain ⟨k, v⟩ := kv
+    have hkv := hok (k, v) (by simp)
+    cases rest with
+    | nil =>
+      simp only [joinParams]
+      rw [splitOn_no 38 _ (pair_no_amp k v hkv)]
+      simp [qslItem_pair k v hkv]
+    | cons kv2 rest2 =>
+      have e : joinParams ((k, v) :: kv2 :: rest2) = (k ++ 61 :: v) ++ 38 :: joinParams (kv2 :: rest2) := by
+        simp [joinParams]
+      rw [e, splitOn_append 38 _ _ (pair_no_amp k v hkv)]
+      simp only [List.filterMap_cons, qslItem_pair k v hkv, List.map_cons]
+      rw [ih (by simp) (fun x hx => hok x (by simp [hx]))]
+      simp
+
+theorem joinParams_ne (qps : List (Str × Str)) (hne : qps ≠ []) : (joinParams qps).isEmpty = false := by
+  match qps, hne with
+  | [(k, v)], _ => simp [joinParams]
+  | (k, v) :: _ :: _, _ => simp [joinParams]
+
+theorem parseQsl_join (qps : List (Str × Str)) (hne : qps ≠ []) (hok : ∀ kv ∈ qps, pairOk kv) :
+    parseQsl (joinParams qps) = qps.map decPair := by
+  rw [parseQsl_eq, joinParams_ne qps hne]
+  simp only [Bool.false_eq_true, if_false]
+  exact items_join qps hne hok
+
+/-! decoding a `quote_plus`ed string -/
+
+theorem quotePlus_chars (s : Str) (hv : validStr s = true) :
+    ∀ c ∈ quoteBytes [32] (utf8 s), quoteChar [32] c = true := mem_quoteBytes [32] _ (utf8_lt s hv)
+
+theorem plusToSpace_quotePlusB (s : Str) (hv : validStr s = true) :
+    plusToSpace (quotePlusB s) = quoteBytes [32] (utf8 s) := by
+  unfold plusToSpace quotePlusB
+  rw [List.map_map]
+  have h43 : 43 ∉ quoteBytes [32] (utf8 s) := quote_avoids [32] s hv 43 (by decide)
+  conv => rhs; rw [← List.map_id (quoteBytes [32] (utf8 s))]
+  apply List.map_congr_left
+  intro c hc
+  have hne : c ≠ 43 := fun e => h43 (e ▸ hc)
+  by_cases h : c = 32
+  · simp [h]
+  · simp [h, hne]
+
+theorem decode_quotePlusB (s : Str) (hv : validStr s = true) : unquote (plusToSpace (quotePlusB s)) = s := by
+  rw [plusToSpace_quotePlusB s hv]
+  exact unquote_quote [32] s _ (by decide) (quote_ok _ _ hv)
+
+theorem quotePlusB_avoids (s : Str) (hv : validStr s = true) (d : Nat) (hd : quoteChar [32] d = false) (h43 : d ≠ 43) :
+    d ∉ quotePlusB s := by
+  intro hm
+  simp only [quotePlusB, List.mem_map] at hm
+  obtain ⟨c, hc, he⟩ := hm
+  by_cases h : c = 32
+  · simp [h] at he; exact h43 he.symm
+  · simp [h] at he; subst he
+    have := quotePlus_chars s hv c hc
+    simp [hd] at this
+
+theorem quotePlusB_ne (a : Nat) (l : Str) : quotePlusB (a :: l) ≠ [] := by
+  unfold quotePlusB
+  intro h
+  have := quoteBytes_utf8_ne [32] a l
+  simp at h
+  exact this h
+
+theorem quotePlusB_okQuery (s : Str) (hv : validStr s = true) : (quotePlusB s).all okQuery = true := by
+  rw [List.all_eq_true]
+  intro c hc
+  cases h : okQuery c with
+  | true => rfl
+  | false =>
+    have hb : c ∈ [35, 9, 10, 13] := by simp [okQuery] at h; simp; omega
+    have hq : quoteChar [32] c = false := by
+      simp only [List.mem_cons, List.not_mem_nil, or_false] at hb
+      rcases hb with rfl | rfl | rfl | rfl <;> decide
+    have hne : c ≠ 43 := by
+      simp only [List.mem_cons, List.not_mem_nil, or_false] at hb
+      rcases hb with rfl | rfl | rfl | rfl <;> decide
+    exact absurd hc (quotePlusB_avoids s hv c hq hne)
+
+
+
+theorem dictSet_new (d : List (Str × Str)) (k v : Str) (h : d.any (·.1 == k) = false) :
+    dictSet d k v = d ++ [(k, v)] := by
+  simp [dictSet, h]
+
+theorem foldl_dictSet (l d : List (Str × Str))
+    (hd : ∀ kv ∈ l, d.any (·.1 == kv.1) = false) (hp : l.Pairwise (fun a b => a.1 ≠ b.1)) :
+    l.foldl (fun d kv => dictSet d kv.1 kv.2) d = d ++ l := by
+  induction l generalizing d with
+  | nil => simp
+  | cons kv rest ih =>
+    simp only [List.foldl_cons]
+    rw [dictSet_new d kv.1 kv.2 (hd kv (by simp))]
+    rw [List.pairwise_cons] at hp
+    rw [ih (d ++ [(kv.1, kv.2)]) ?_ hp.2]
+    · simp
+    · intro x hx
+      have h1 := hd x (by simp [hx])
+      have h2 := hp.1 x hx
+      simp only [List.any_append, h1, Bool.false_or, List.any_cons, List.any_nil, Bool.or_false, beq_eq_false_iff_ne]
+      exact h2
+
+theorem dictOf_distinct (l : List (Str × Str)) (hp : l.Pairwise (fun a b => a.1 ≠ b.1)) : dictOf l = l := by
+  unfold dictOf
+  rw [foldl_dictSet l [] (by simp) hp]
+  simp
+
+/-- extra parameters as `connectionForURI(uri, **args)` accepts them -/
+structure ParamsOk (ps : List (Str × Str)) : Prop where
+  valid : ∀ kv ∈ ps, validStr kv.1 = true ∧ validStr kv.2 = true
+  nonempty : ∀ kv ∈ ps, kv.2 ≠ []
+  distinct : ps.Pairwise (fun a b => a.1 ≠ b.1)
+
+def encPair (kv : Str × Str) : Str × Str := (quotePlusB kv.1, quotePlusB kv.2)
+
+theorem urlencode_ok (ps : List (Str × Str)) (ok : ParamsOk ps) :
+    urlencode ps = some (joinParams (ps.map encPair)) := by
+  unfold urlencode
+  have : ps.all (fun kv => validStr kv.1 && validStr kv.2) = true := by
+    rw [List.all_eq_true]; intro kv hkv
+    have := ok.valid kv hkv
+    simp [this.1, this.2]
+  simp only [this, if_true]
+  rfl
+
+theorem encPair_ok (kv : Str × Str) (hv : validStr kv.1 = true ∧ validStr kv.2 = true) (hne : kv.2 ≠ []) :
+    pairOk (encPair kv) := by
+  refine ⟨?_, ?_, ?_, ?_⟩
+  · exact quotePlusB_avoids kv.1 hv.1 38 (by decide) (by decide)
+  · exact quotePlusB_avoids kv.1 hv.1 61 (by decide) (by decide)
+  · exact quotePlusB_avoids kv.2 hv.2 38 (by decide) (by decide)
+  · show quotePlusB kv.2 ≠ []
+    match h : kv.2, hne with
+    | a :: l, _ => exact quotePlusB_ne a l
+
+theorem decPair_encPair (kv : Str × Str) (hv : validStr kv.1 = true ∧ validStr kv.2 = true) :
+    decPair (encPair kv) = kv := by
+  simp [decPair, encPair, decode_quotePlusB _ hv.1, decode_quotePlusB _ hv.2]
+
+theorem joinParams_chars (qps : List (Str × Str)) :
+    ∀ c ∈ joinParams qps, c = 61 ∨ c = 38 ∨ ∃ kv ∈ qps, c ∈ kv.1 ∨ c ∈ kv.2 := by
+  induction qps with
+  | nil => simp [joinParams]
+  | cons kv rest ih =>
+    obtain ⟨k, v⟩ := kv
+    intro c hc
+    cases rest with
+    | nil =>
+      simp only [joinParams, List.mem_append, List.mem_cons] at hc
+      rcases hc with hc | rfl | hc
+      · exact Or.inr (Or.inr ⟨(k, v), by simp, Or.inl hc⟩)
+      · exact Or.inl rfl
+      · exact Or.inr (Or.inr ⟨(k, v), by simp, Or.inr hc⟩)
+    | cons kv2 rest2 =>
+      have e : joinParams ((k, v) :: kv2 :: rest2) = k ++ 61 :: v ++ 38 :: joinParams (kv2 :: rest2) := by
+        simp [joinParams]
+      rw [e] at hc
+      simp only [List.mem_append, List.mem_cons] at hc
+      rcases hc with (hc | rfl | hc) | rfl | hc
+      · exact Or.inr (Or.inr ⟨(k, v), by simp, Or.inl hc⟩)
+      · exact Or.inl rfl
+      · exact Or.inr (Or.inr ⟨(k, v), by simp, Or.inr hc⟩)
+      · exact Or.inr (Or.inl rfl)
+      · rcases ih c hc with h | h | ⟨x, hx, h⟩
+        · exact Or.inl h
+        · exact Or.inr (Or.inl h)
+        · exact Or.inr (Or.inr ⟨x, by simp [hx], h⟩)
+
+/-- `parse_qsl(urlencode(args))` gives the arguments back, and the encoded text is a legal query -/
+theorem params_back (ps : List (Str × Str)) (ok : ParamsOk ps) (hne : ps ≠ []) :
+    ∃ q, urlencode ps = some q ∧ q.all okQuery = true ∧ dictOf (parseQsl q) = ps := by
+  refine ⟨_, urlencode_ok ps ok, ?_, ?_⟩
+  · rw [List.all_eq_true]
+    intro c hc
+    rcases joinParams_chars _ c hc with rfl | rfl | ⟨x, hx, h⟩
+    · decide
+    · decide
+    · simp only [List.mem_map] at hx
+      obtain ⟨kv, hkv, rfl⟩ := hx
+      have hv := ok.valid kv hkv
+      rcases h with h | h
+      · exact List.all_eq_true.mp (quotePlusB_okQuery kv.1 hv.1) c h
+      · exact List.all_eq_true.mp (quotePlusB_okQuery kv.2 hv.2) c h
+  · rw [parseQsl_join _ (by simpa using hne)]
+    · rw [List.map_map]
+      have : ps.map (decPair ∘ encPair) = ps := by
+        conv => rhs; rw [← List.map_id ps]
+        apply List.map_congr_left
+        intro kv hkv
+        exact decPair_encPair kv (ok.valid kv hkv)
+      rw [this]
+      exact dictOf_distinct ps ok.distinct
+    · intro x hx
+      simp only [List.mem_map] at hx
+      obtain ⟨kv, hkv, rfl⟩ := hx
+      exact encPair_ok kv (ok.valid kv hkv) (ok.nonempty kv hkv)
+
+theorem assemble_no_q (p : Parts) (ok : PartsOk p) : 63 ∉ assemble p := by
+  have hn := netloc_chars p ok
+  have ht := List.all_eq_true.mp ok.tail
+  have hs := ok.scheme
+  intro hm
+  simp only [assemble, List.mem_append] at hm
+  rcases hm with (((hm | hm) | hm) | hm) | hm
+  · match hsc : p.scheme, hs with
+    | x :: xs, hs =>
+      simp only [validScheme, Bool.and_eq_true] at hs
+      have := List.all_eq_true.mp hs.2 63 (hsc ▸ hm)
+      simp [isSchemeChar, isAsciiAlpha, isDigit] at this
+  · simp at hm
+  · rcases hn 63 hm with h | h | h
+    · simp [okNet] at h
+    · omega
+    · omega
+  · simp at hm
+  · have := ht 63 hm; simp [okTail] at this
+
+/-- a URI assembled from delimiter-free pieces, extended the way `connectionForURI(uri, **args)` does
+    it, parses to the same components plus exactly the parameters -/
+theorem with_params (p : Parts) (ok : PartsOk p) (sep : PartsSep p) (P : Parsed)
+    (hbase : parseURI (assemble p) = .ok P) (ps : List (Str × Str)) (pok : ParamsOk ps) :
+    ∃ u', withParams (assemble p) ps = some u' ∧ parseURI u' = .ok { P with args := P.args ++ ps } := by
+  have hargs : P.args = [] := by
+    rw [parseURI_assemble p ok sep] at hbase
+    revert hbase
+    generalize portOfText p.port = r
+    cases r with
+    | none => intro h; cases h
+    | some port => intro h; cases h; rfl
+  cases ps with
+  | nil =>
+    refine ⟨assemble p, by simp [withParams], ?_⟩
+    rw [hbase]
+    cases P
+    simp at hargs
+    simp [hargs]
+  | cons kv rest =>
+    obtain ⟨q, hq, hokq, hback⟩ := params_back (kv :: rest) pok (by simp)
+    have hn := assemble_no_q p ok
+    refine ⟨assemble p ++ [63] ++ q, by simp [withParams, hq, hn], ?_⟩
+    have e : assemble p ++ [63] ++ q = assemble p ++ querySuffix (some q) := by simp [querySuffix]
+    rw [e, parseURI_assembleQ p ok sep (some q) (by intro x hx; cases hx; exact hokq)]
+    rw [parseURI_assemble p ok sep] at hbase
+    revert hbase
+    generalize portOfText p.port = r
+    cases r with
+    | none => intro h; cases h
+    | some port =>
+      intro h
+      cases h
+      simp [hback]
+
+/-- the generic builder's URI extended with extra parameters parses back to components + parameters -/
+theorem parse_build_params (c : Conn) (wf : WfConn c) (ps : List (Str × Str)) (ok : ParamsOk ps) :
+    ∃ u u', genericUri c = .ok u ∧ withParams u ps = some u' ∧
+      parseURI u' = .ok ⟨truthyS c.user, truthyS c.password, truthyS c.host,
+        (truthyI c.port).map Int.toNat, 47 :: dbOf c, ps⟩ := by
+  obtain ⟨u, hu, hp⟩ := parse_build c wf
+  have wb := wf.toWfBase
+  have hu' : u = assemble (partsOf c) := by
+    have := genericUri_eq c wb
+    rw [hu] at this
+    cases this; rfl
+  subst hu'
+  obtain ⟨u', h1, h2⟩ := with_params _ (partsOf_ok c wb) (partsOf_sep c wb) _ hp ps ok
+  exact ⟨_, u', hu, h1, by simpa using h2⟩
+
+/-- the same for the sqlite builder and an absolute file name -/
+theorem sqlite_parse_build_params (t : Str) (hv : validStr (47 :: t) = true) (ps : List (Str × Str))
+    (ok : ParamsOk ps) :
+    ∃ u u', sqliteUri (47 :: t) = .ok u ∧ withParams u ps = some u' ∧
+      parseURI u' = .ok ⟨none, none, none, none, 47 :: t, ps⟩ := by
+  have hv' : validStr t = true := by
+    rw [validStr_cons] at hv; simp at hv; exact hv.2
+  obtain ⟨u, hu, hp⟩ := sqlite_abs_parse t hv
+  have hu' := sqlite_abs_uri t hv
+  rw [hu] at hu'
+  cases hu'
+  obtain ⟨u', h1, h2⟩ := with_params _ (sqlite_parts_ok t hv') (sqlite_parts_sep t) _ hp ps ok
+  exact ⟨_, u', hu, h1, by simpa using h2⟩
+
+
 end SqlObjVerif.Uri
